@@ -224,8 +224,16 @@ type harness struct {
 	ensureDue  int64 // 0 none, guarded by mu
 	ensures    int
 	starts     int
-	ckpts      []checkpoint
-	keepCkpts  bool
+
+	version         int64 // bumped under the state lock by handlers mid-work
+	lastCkptVersion int64
+	ckptOutOfOrder  int
+	ckptStamped     int
+	ckptWitness     string
+	slowCkpt        bool
+	midWork         bool
+	ckpts           []checkpoint
+	keepCkpts       bool
 
 	st     *state.State
 	runner *state.TaskRunner
@@ -248,7 +256,45 @@ func vnow() time.Time { return time.Unix(0, atomic.LoadInt64(&vclockNanos)).UTC(
 func (h *harness) now() time.Time { return vnow() }
 
 // state.Backend
+// verifVersion extracts the harness's monotone version stamp from a payload.
+func verifVersion(data []byte) int64 {
+	k := []byte(`"verif-version":`)
+	i := bytes.Index(data, k)
+	if i < 0 {
+		return -1
+	}
+	var v int64
+	for _, c := range data[i+len(k):] {
+		if c < '0' || c > '9' {
+			break
+		}
+		v = v*10 + int64(c-'0')
+	}
+	return v
+}
+
 func (h *harness) Checkpoint(data []byte) error {
+	if h.slowCkpt {
+		// a slow disk: widens the window between taking the snapshot and
+		// having it written
+		time.Sleep(time.Duration(verifVersion(data)%4) * 300 * time.Microsecond)
+	}
+	// checkpoints must reach the backend in state-lock order: the stamp that
+	// handlers bump under the lock never goes backwards from one write to the next
+	if v := verifVersion(data); v >= 0 {
+		h.mu.Lock()
+		if v < h.lastCkptVersion {
+			h.ckptOutOfOrder++
+			if h.ckptWitness == "" {
+				h.ckptWitness = fmt.Sprintf("payload with version %d written after one with version %d", v, h.lastCkptVersion)
+			}
+		}
+		if v > h.lastCkptVersion {
+			h.lastCkptVersion = v
+		}
+		h.ckptStamped++
+		h.mu.Unlock()
+	}
 	if h.keepCkpts {
 		cp := make([]byte, len(data))
 		copy(cp, data)
@@ -328,6 +374,14 @@ func (h *harness) handler(phase string) state.HandlerFunc {
 			} else {
 				time.Sleep(nap)
 			}
+		}
+		if h.midWork {
+			// real handlers take the state lock mid-work; this unlock checkpoints
+			// concurrently with other handlers' and the runner's unlocks
+			h.st.Lock()
+			h.version++
+			h.st.Set("verif-version", h.version)
+			h.st.Unlock()
 		}
 		var res result
 		if phase == "do" {
